@@ -208,7 +208,7 @@ func c07TrueSource(c *Ctx) {
 	w := c.w
 	g := w.Flow()
 	rule := "true-source"
-	ruleLoopCaptureReaching(c, rule, "the request is stamped with the source of a later datagram", "NewRawMessage")
+	ruleNoLoopCapture(c, rule, "the request is stamped with the source of a later datagram, or a listener gets the received-support setting of the listener configured last")
 	n := 0
 	for _, fn := range w.All {
 		for _, cs := range w.callsIn(fn, "NewRawMessage") {
